@@ -96,6 +96,12 @@ func c01Shapes() []Shape {
 			IfS(Op("==", V("i"), N(1)), Continue{}),
 			Pr(S("after"), V("i"))),
 		Pr(S("done"))))
+	add("minus-attached-after-operand", Prog(Def("a", L(0)), Def("b", L(1)),
+		Def("c", RawExpr{Text: "(a + b)-1", Val: Op("-", P(Op("+", V("a"), V("b"))), N(1))}),
+		Def("d", RawExpr{Text: "(a * b) -2", Val: Op("-", P(Op("*", V("a"), V("b"))), N(2))}),
+		Def("e", RawExpr{Text: "a-1", Val: Op("-", V("a"), N(1))}), Def("f", RawExpr{Text: "a -3", Val: Op("-", V("a"), N(3))}),
+		Def("g", RawExpr{Text: "a- 4", Val: Op("-", V("a"), N(4))}), Def("h", RawExpr{Text: "c*-1", Val: Op("*", V("c"), N(-1))}),
+		OpSet("a", "-", RawExpr{Text: "(b + 2)-1", Val: Op("-", P(Op("+", V("b"), N(2))), N(1))}), Pr(V("c"), V("d"), V("e"), V("f"), V("g"), V("h"), V("a"))))
 	add("switch-default-only", Prog(Def("x", L(0)), Switch{Tag: V("x"), HasDef: true, Default: []Stmt{Pr(S("d"), V("x"))}}))
 	add("switch-default-first", Prog(Def("x", L(0)),
 		Switch{Tag: V("x"), Cases: []Case{{Val: L(1), Body: []Stmt{Pr(S("c1"))}}}, HasDef: true, DefPos: 0, Default: []Stmt{Pr(S("d"))}}))
